@@ -272,6 +272,11 @@ def _run_build(env, assign, state, res, out, before, relative, tool):
     res.outcome((state, sum(1 for c in assign if c != 'none')))
 
 
+def carts_mask(mem):
+    from lib import carts
+    return carts.mask_music(bytes(mem)) if len(mem) == 256 else bytes(mem)
+
+
 def run_error(env, sec, kind, state, res):
     from pico8 import tool
     res.evaluations += 1
@@ -315,6 +320,18 @@ def run_error(env, sec, kind, state, res):
             args += ['--' + other, env.src_p8]
         else:
             args[2:2] = ['--' + other, env.src_p8]
+    elif kind.startswith('out-odd-header-'):
+        # OUT exists and IS a cart, but its text is not byte-for-byte what picotool writes (CR LF line ends, a byte order
+        # mark, a blank after the header line): the build either refuses and leaves it alone, or keeps what it holds -
+        # it never quietly starts from an empty cart
+        if state != 'existing-p8':
+            return
+        how = kind.split('-')[3]
+        odd = {'crlf': before.replace(b'\n', b'\r\n'), 'bom': b'\xef\xbb\xbf' + before,
+               'blank': before.replace(b'\n', b' \n', 1), 'upper': before.replace(b'pico-8 cartridge', b'PICO-8 cartridge', 1)}[how]
+        before = odd
+        open(out, 'wb').write(before)
+        args = ['build', out, '--empty-' + sec] if sec != 'lua' else ['build', out, '--lua', env.src_lua]
     elif kind.startswith('oversize-'):
         # every argument is fine and loads, but the program does not fit a .p8.png cart's code area (the failure comes
         # from the last step, the write); only for .p8.png OUTs - a .p8 has no such limit
@@ -346,6 +363,21 @@ def run_error(env, sec, kind, state, res):
     except BaseException as e:
         rcode = None
         raised = e
+    if rcode == 0 and raised is None and kind.startswith('out-odd-header-'):
+        # accepted: then every section that was not named still holds what OUT held
+        try:
+            regs, code, lab = read_out(out)
+            prev = env.f['prev-p8']
+            lost = [n for n in ('gfx', 'gff', 'map', 'sfx', 'music') if n != sec and bytes(regs.get(n, b'')) != bytes(prev[n]) and
+                    not (n == 'music' and carts_mask(regs.get(n, b'')) == carts_mask(prev[n]))]
+        except Exception as e:
+            lost = ['unreadable: %r' % (e,)]
+        if lost:
+            res.violation('C13|odd-out-overwritten|%s|%s' % (kind, sec), 'build %r onto an existing cart whose text has %s reported success but the '
+                          'sections %r no longer hold what OUT held' % (args[2:], kind[15:], lost), case)
+        else:
+            res.outcome(('odd-out-kept', kind))
+        return
     if rcode == 0 and raised is None:
         res.violation('C13|error-accepted|%s|%s' % (kind, sec), 'build %r succeeded although the arguments are unusable' % (
             args[2:],), case)
@@ -444,7 +476,8 @@ def run_shard(item):
                 for sec in SECTIONS:
                     for kind in ('both', 'missing', 'wrongext', 'luaext', 'outext', 'emptypath', 'emptypath+empty', 'dirpath',
                                  'unloadable-lua-first', 'unloadable-lua-last', 'unloadable-header-first', 'unloadable-notpng-last',
-                                 'unloadable-include-first', 'oversize-incompressible', 'oversize-compressible'):
+                                 'unloadable-include-first', 'oversize-incompressible', 'oversize-compressible',
+                                 'out-odd-header-crlf', 'out-odd-header-bom', 'out-odd-header-blank', 'out-odd-header-upper'):
                         run_error(env, sec, kind, state, res)
             res.sample({'error': 'both --gfx and --empty-gfx', 'out': 'existing-p8'})
     finally:
